@@ -4,7 +4,7 @@
    uMAX and uone as primitives for Self::ZERO / MAX / ONE; these lemmas justify that.) *)
 From Coq Require Import Lia ZifyBool.
 From RV.Model Require Import Base Word.
-From RV.Model Require Conv UDiv.
+From RV.Model Require Conv UDiv Mul.
 From RV.Gen Require Import Prim Scalar.
 From RV.Proofs Require Import BaseFacts PfGenScalar PfGenAdd.
 
@@ -78,4 +78,25 @@ Proof.
   destruct n as [|n]; cbn [nth_error].
   - destruct (Z.leb_spec 1 (mask bits)); [reflexivity|lia].
   - rewrite nth_error_repeat by lia. destruct (Z.leb_spec 0 (mask bits)); [reflexivity|lia].
+Qed.
+
+(* const_from_u64 for every word x (g_ONE_eq above is the instance x = 1 against UDiv.uone) *)
+Lemma g_const_from_u64_eq bits x : 0 <= bits -> nlimbs bits <= B -> 0 <= x < B ->
+  g_const_from_u64 bits (nlimbs bits) x = Mul.const_from_u64 bits x.
+Proof.
+  intros H0 HB Hx. unfold g_const_from_u64, Mul.const_from_u64.
+  destruct (Z.eqb_spec bits 0) as [->|Hnz]; [reflexivity|]. cbn [orb].
+  assert (Hpos : 0 < bits) by lia. pose proof (nlimbs_pos bits Hpos) as Hn.
+  assert (Hc : (do t_2 <- (if bits <? 64 then do t_1 <- chksh 64 bits; Val (shl64 1 t_1 <=? x) else Val false); Val t_2)
+               = Val ((bits <? 64) && (2 ^ bits <=? x))).
+  { destruct (Z.ltb_spec bits 64); [|reflexivity].
+    rewrite chksh_ok by lia. cbn [obind andb]. unfold shl64. rewrite Z.mul_1_l.
+    assert (0 < 2 ^ bits < B) by (rewrite B_pow; split; [apply Z.pow_pos_nonneg; lia | apply Z.pow_lt_mono_r; lia]).
+    rewrite Z.mod_small by lia. reflexivity. }
+  rewrite Hc. cbn [obind].
+  destruct ((bits <? 64) && (2 ^ bits <=? x)); [reflexivity|].
+  unfold zero_limbs, nlimbsN.
+  destruct (Z.to_nat (nlimbs bits)) as [|n] eqn:En; [lia|].
+  cbn [repeat]. unfold idx, upd. cbn [Z.to_nat nth_error obind firstn skipn app].
+  rewrite g_from_limbs_eq by assumption. destruct (Conv.from_limbs bits (x :: repeat 0 n)); reflexivity.
 Qed.
